@@ -382,6 +382,24 @@ def wrappers(ctx, R="R-C14-wrappers"):
             ctx.ok(R, fw.loc(rnode), what)
             continue
         from .. import scenario as SC
+        # a value that depends on whether the input is empty: evaluate both scenarios (the documented result is the same in both)
+        if any(isinstance(x, S.E) and x.op == "call" and x.args[0] in (".numel", ".nelement") for x in S.walk(v)):
+            done_ = False
+            for empty in (False, True):
+                def fn(x, empty=empty):
+                    if x.op == "call" and x.args[0] in (".numel", ".nelement") and len(x.args) == 2 and x.args[1] == sg:
+                        return S.lift(0 if empty else 7)
+                    return None
+                vs = SC.transform(v, fn)
+                if vs != want and not SC.residual_conditions(vs):
+                    calls_, _ = SC.vocabulary(vs)
+                    if {x for x in calls_ if not str(x).startswith("kw:")} <= {"torch.tensor", "." + call_attr, ".numpy", ".cpu", ".detach", ".clone", ".copy", "torch.as_tensor", "torch.from_numpy", ".to", ".new_empty", ".new_zeros", "torch.empty_like", "torch.zeros_like"}:
+                        ctx.bad(R, fw, rnode, "for %s input %s.forward returns %s ; documented: %s (a post-processor that changes the number of columns, or "
+                                "raises, is bypassed)" % ("an empty" if empty else "a non-empty", cname, S.show(vs)[:120], S.show(want)[:160]), what)
+                        done_ = True
+                        break
+            if done_:
+                continue
         calls, syms = SC.vocabulary(v)
         known = {"torch.tensor", "." + call_attr, ".numpy", ".cpu", ".detach", ".clone", ".copy", "torch.as_tensor", "torch.from_numpy", ".to"}
         extra = {x for x in calls if not str(x).startswith("kw:")} - known
